@@ -237,6 +237,14 @@ class Stub:
                 self.bg_writes.append(cmd)
                 self.cv.notify_all()
                 return {"n": 1, "nModified": 1, "ok": 1.0}
+            if mode == "hold_find":
+                # background result writes are captured as in defer_bg; queries on the problem collection are parked
+                # until the explorer releases them; everything else is answered at once
+                if is_background_write(cmd):
+                    self.bg_writes.append(cmd)
+                    self.cv.notify_all()
+                    return {"n": 1, "nModified": 1, "ok": 1.0}
+                mode = "controlled" if (n == "find" and cmd.get(name) == "adf-problems") else "free"
             if mode == "controlled":
                 p = Pending(self.seq, cmd, conn)
                 self.parked.append(p)
